@@ -332,6 +332,8 @@ class VBPTC6828:
     @staticmethod
     def set_parity(column: numpy.ndarray) -> numpy.ndarray:
         assert len(column) in (3, 4)
+        # parity is written into a private copy, not into the caller's column
+        column = numpy.array(column)
         if len(column) == 3:
             column = numpy.append(column, [0])
         column[3] = column[0] ^ column[1] ^ column[2]
